@@ -31,6 +31,8 @@ func need(b uint32, T float64, intervalMs int) int64 {
 	return int64(math.Ceil(float64(b) / T * float64(iv*1e6)))
 }
 
+var loaded *flow.Rule // the rule of the running case, as submitted
+
 func loadRule(t *rapid.T, T float64, ivMs, qMs int) {
 	r := &flow.Rule{Resource: "t", TokenCalculateStrategy: flow.Direct, ControlBehavior: flow.Throttling, Threshold: T,
 		StatIntervalInMs: uint32(ivMs), MaxQueueingTimeMs: uint32(qMs)}
@@ -53,6 +55,8 @@ func loadRule(t *rapid.T, T float64, ivMs, qMs int) {
 			system_metric.SetSystemMemoryUsage(5000)
 		}
 	}
+	cp := *r
+	loaded = &cp
 	if _, err := flow.LoadRules([]*flow.Rule{r}); err != nil {
 		t.Fatalf("LoadRules: %v", err)
 	}
@@ -74,7 +78,28 @@ func TestSequential(t *testing.T) {
 		last := int64(0) // latest assigned pass time
 		sawWait, sawReject, passAfterReject := false, false, false
 		n := rapid.IntRange(1, 30).Draw(t, "n")
+		reloads := 0
 		for i := 0; i < n; i++ {
+			if rapid.IntRange(0, 7).Draw(t, "reload") == 3 {
+				// the rule set is reloaded with the pacing rule unchanged (a fresh, equal object) and something else different:
+				// pacing state and queued reservations must survive
+				reloads++
+				same := *loaded
+				others := []*flow.Rule{&same, {Resource: "elsewhere", Threshold: float64(reloads)}}
+				if rapid.Bool().Draw(t, "otherFirst") {
+					others[0], others[1] = others[1], others[0]
+				}
+				var err error
+				if rapid.Bool().Draw(t, "perResource") {
+					_, err = flow.LoadRulesOfResource("t", []*flow.Rule{&same, {Resource: "t", Threshold: 1e9 + float64(reloads)}})
+				} else {
+					_, err = flow.LoadRules(others)
+				}
+				if err != nil {
+					t.Fatalf("reload: %v", err)
+				}
+				c.Op("reload #%d (pacing rule unchanged)", reloads)
+			}
 			b := uint32(rapid.SampledFrom([]int{1, 1, 1, 2, 3, 4, 11, 2000}).Draw(t, "batch"))
 			var dt int64
 			switch rapid.IntRange(0, 4).Draw(t, "dk") {
@@ -152,6 +177,7 @@ func TestSequential(t *testing.T) {
 		}
 		c.ClassIf(sawWait, "wait>0")
 		c.ClassIf(sawReject, "reject")
+		c.ClassIf(reloads > 0, "reloaded-with-the-pacing-rule-unchanged")
 		if sawWait && sawReject && passAfterReject {
 			c.NonTrivial()
 		}
